@@ -630,6 +630,11 @@ func throughReceiverPointer(fn *ssa.Function, addr ssa.Value) bool {
 			v = x.X
 		default:
 			if receiverRoot(fn, v) {
+				// a method of a plain data record (a protobuf message, a params struct in a types package) that
+				// sets its own fields mutates a value its caller owns, not process-local state
+				if nt := namedOf(fn.Params[0].Type()); nt != nil && nt.Obj().Pkg() != nil && strings.HasSuffix(nt.Obj().Pkg().Path(), "/types") {
+					return false
+				}
 				if _, isPtr := fn.Params[0].Type().Underlying().(*types.Pointer); isPtr {
 					return true
 				}
